@@ -1,4 +1,5 @@
 import ast
+import copy
 from typing import Any, Dict, List, Optional, Tuple
 
 from func_adl.ast.func_adl_ast_utils import FuncADLNodeTransformer
@@ -69,6 +70,15 @@ def remove_empty_metadata(a: ast.AST) -> ast.AST:
     """
 
     class _cleaner(ast.NodeTransformer):
+        def generic_visit(self, node: ast.AST) -> ast.AST:
+            # ast.NodeTransformer rewrites nodes (and their child lists) in place. Work on a
+            # copy of each node so the tree we were handed is left untouched.
+            new_node = copy.copy(node)
+            for field, old_value in ast.iter_fields(node):
+                if isinstance(old_value, list):
+                    setattr(new_node, field, list(old_value))
+            return super().generic_visit(new_node)
+
         def visit_Call(self, node: ast.Call):
             n = self.generic_visit(node)
             assert isinstance(n, ast.Call)
